@@ -328,6 +328,14 @@ func TestC02(t *testing.T) {
 			}
 			checkDirAsMap(c, "C02", node, model, extra, pads, 3000)
 			st.Closed = false
+			if len(names) <= 700 {
+				// random histories of operations, each on a node of its own: one fresh, one that has been
+				// through everything above
+				if fresh, err := loadReified(ls, root); err == nil {
+					runDirHistory(c, "C02", fresh, model, pads, 150)
+				}
+				runDirHistory(c, "C02", node, model, pads, 80)
+			}
 			c.Sig(fmt.Sprintf("%s|f%d|sharded=%v|depth%d|%s|%s", d.Builder, d.Fanout, sharded, depth, d.Family, sizeClass(len(names))), len(names) >= 2)
 			c.Sample(map[string]any{"root": root.String(), "entries": len(names), "sharded": sharded, "hamt_depth": depth, "blocks": st.Len()})
 		})
